@@ -1,6 +1,11 @@
 package props
 
 import (
+	"verif/mc/report"
+	"verif/mc/ref"
+	"verif/mc/eng"
+	"github.com/antchfx/xpath"
+	"fmt"
 	"time"
 
 	"verif/mc/doc"
@@ -40,7 +45,9 @@ func c09Spaces(tier string) []*explore.Space {
 	}
 	// F2: substring(s, i) and substring(s, i, l): the whole small cube
 	nums := []gen.Expr{&gen.Neg{E: lit("3", 3)}, &gen.Neg{E: lit("1", 1)}, &gen.Neg{E: lit("0.5", 0.5)}, lit("0", 0), lit("0.4", 0.4), lit("0.5", 0.5), lit("1", 1), lit("1.5", 1.5),
-		lit("2", 2), lit("2.5", 2.5), lit("2.6", 2.6), lit("3", 3), lit("5", 5), lit("6", 6), lit("10", 10), lit("1000000", 1000000)}
+		lit("2", 2), lit("2.5", 2.5), lit("2.6", 2.6), lit("3", 3), lit("5", 5), lit("6", 6), lit("10", 10), lit("1000000", 1000000),
+		// finite but beyond the 32- and 64-bit integer ranges
+		lit("4294967296", 4294967296), lit("9223372036854775807", 9223372036854775807), lit("10000000000000000000", 1e19), &gen.Neg{E: lit("10000000000000000000", 1e19)}, lit("100000000000000000000000000000", 1e29)}
 	var f2 []gen.Expr
 	for _, s := range S {
 		for _, i := range nums {
@@ -124,18 +131,75 @@ func c09Spaces(tier string) []*explore.Space {
 	docs := func() []*doc.Tree { return uniV(n, vals) }
 	return []*explore.Space{
 		exprSpace("F1", "every string function x every argument tuple over the 12-string alphabet", f1, one, ev),
-		exprSpace("F2", "substring(s,i) and substring(s,i,l) over the 12 x 16 x 17 cube", f2, one, ev),
+		exprSpace("F2", "substring(s,i) and substring(s,i,l) over the 12 x 21 x 22 cube (starts and lengths incl. negative, fractional, 2^32, 2^63, 10^19, 10^29)", f2, one, ev),
 		exprSpace("F3", "chains of unary string wrappers", f3, one, ev),
 		exprSpace("F4", "flat node-set arguments x value universe", f4, docs, ev),
 		exprSpace("F5", "string functions over arguments that end in a positional predicate, evaluated for several candidates of a predicate", hostExprs(f5), docs,
 			&evalCfg{Prop: "C09", Ops: []string{"select"}, Mode: "set", Base: func(i int) gen.Expr { return f5[i].base }}),
+		f6Space(),
+	}
+}
+
+// afterAbort evaluates `aborting` (an expression that raises the package's
+// type error after part of a string result was built) and then `plain`, in one
+// process, and returns plain's observed value and the reference value.
+func afterAbort(aborting, plain string) (got, want string, ok bool, err error) {
+	ea, e1 := xpath.Compile(aborting)
+	ep, e2 := xpath.Compile(plain)
+	ast, e3 := ref.Parse(plain)
+	if e1 != nil || e2 != nil || e3 != nil {
+		return "", "", false, fmt.Errorf("F6 expressions must compile: %v %v %v", e1, e2, e3)
+	}
+	settleGlobals()
+	o := eng.Evaluate(ea, emptyDoc, 0, false)
+	if o.Kind != "panic-error" {
+		return o.String(), "a deliberate type error from the first expression", false, nil
+	}
+	g := eng.Evaluate(ep, emptyDoc, 0, false)
+	w := ref.Eval(&ref.Env{T: emptyDoc}, 0, ast)
+	return g.String(), w.String(), g.String() == w.String(), nil
+}
+
+func f6Space() *explore.Space {
+	aborting := []string{"concat('LEFT-OVER', substring('abc', 'x'))", "concat('L', 'M', string(sum('y')))", "normalize-space(concat(' p  q ', string(sum('y'))))", "string-join(/nosuch, substring('abc', 'x'))",
+		"concat(normalize-space(' u '), string(sum('y')))"}
+	plain := []string{"concat('a', 'b')", "concat('', '')", "normalize-space('  x   y ')", "normalize-space('')", "string-join(/nosuch, ',')", "concat(normalize-space(' a '), '-', 'b')", "translate('abc', 'a', 'x')",
+		"substring-before('a-b', '-')", "lower-case('AB')", "string(concat('1', '2'))", "string-length(concat('a', 'b'))", "contains(concat('a', 'b'), 'ab')"}
+	return &explore.Space{
+		Name: "F6", Desc: "a string function evaluated right after an evaluation that aborted half-way through building a string (5 aborting x 12 plain expressions, both orders of compilation)",
+		Size:  len(aborting) * len(plain),
+		Label: func(i int) string { return aborting[i/len(plain)] + " ; " + plain[i%len(plain)] },
+		Run: func(i int, w *explore.Worker) {
+			a, p := aborting[i/len(plain)], plain[i%len(plain)]
+			for k := 0; k < 2; k++ { // twice: the second round meets whatever the first one left behind
+				w.Eval()
+				got, want, ok, err := afterAbort(a, p)
+				if err != nil {
+					w.InternalError(err.Error())
+					return
+				}
+				w.NonTrivialCase(a + p)
+				w.RefOutcome("value")
+				if ok {
+					w.EngOutcome("agree")
+					continue
+				}
+				w.EngOutcome("differ")
+				w.Violation(&report.Case{Kind: "c09after", Expr: p, Op: "evaluate, right after " + a + " aborted", Expected: want, Got: got, Class: "value-after-abort",
+					Extra: map[string]interface{}{"aborting": a}, Sig: "C09|F6|" + p + "|after|" + a, Weight: len(a) + len(p)})
+			}
+		},
 	}
 }
 
 func init() {
+	report.RegisterReplayer("c09after", func(c *report.Case) (string, bool, error) {
+		got, _, ok, err := afterAbort(fmt.Sprint(c.Extra["aborting"]), c.Expr)
+		return got, ok, err
+	})
 	explore.Register(&explore.Property{
 		ID: "C09", Level: "exploration",
-		Rule: "every string function of the property x every argument tuple over a 12-string ASCII alphabet (empty, blanks, tabs/newlines, mixed case), substring over the complete 12x16x17 cube of (string, start, length) incl. negative/fractional/huge numbers, all chains of <= 4 (thorough: 5) unary string wrappers, and flat node-set arguments on every document of a value universe from every context node, compared with the reference string/number/boolean; distinct = distinct expressions",
+		Rule: "every string function of the property x every argument tuple over a 12-string ASCII alphabet (empty, blanks, tabs/newlines, mixed case), substring over the complete 12x21x22 cube of (string, start, length) incl. negative/fractional/huge numbers, all chains of <= 4 (thorough: 5) unary string wrappers, and flat node-set arguments on every document of a value universe from every context node, compared with the reference string/number/boolean; F6: the value of a string function right after an evaluation that aborted half-way through building a string; distinct = distinct expressions",
 		Assumptions:    []string{"hand-written reference string functions (XPath 1.0 §4.2, F&O for the three 2.0 functions)", "ASCII only", "bounded alphabets"},
 		Budget:         budget(90*time.Second, 10*time.Minute),
 		MinRefOutcomes: 2,
